@@ -206,10 +206,25 @@ static void g_leave(int grp) {
 	GP.payload[grp]++; GP.payload_ck[grp] = ~GP.payload[grp];
 	dispatch_group_leave(GP.g[grp]);
 }
-typedef struct gitem { int grp; int handoff; int body; } gitem;
+typedef struct gitem { int grp; int handoff; int body; int nest, q; } gitem;
 static void g_item_fn(void *ctx) {
 	gitem *it = ctx;
 	if (it->body) sim_point();
+	if (it->nest == 1) {
+		// the item fans out into the other group (or its own one) before it ends: the leave implied for this item
+		// still belongs to this item's group
+		int g2 = GP.ng > 1 ? 1 - it->grp : it->grp;
+		gitem *n = malloc(sizeof *n); n->grp = g2; n->handoff = 0; n->body = 1; n->nest = 0; n->q = it->q;
+		h_log("item of g%d: group_async g%d", it->grp, g2);
+		GP.pending_async++;
+		dispatch_group_async_f(GP.g[g2], GP.q[(it->q + 1) % 3], n, g_item_fn);
+		GP.L[g2]++; GP.enters[g2]++;
+	} else if (it->nest == 2) {
+		gitem *n = malloc(sizeof *n); n->grp = it->grp; n->handoff = 1; n->body = 0; n->nest = 0; n->q = it->q;
+		h_log("item of g%d: enter g%d, leave handed to a plain async item", it->grp, it->grp);
+		dispatch_group_enter(GP.g[it->grp]); GP.L[it->grp]++; GP.enters[it->grp]++; GP.pending_async++;
+		dispatch_async_f(GP.q[(it->q + 1) % 3], n, g_item_fn);
+	}
 	if (it->handoff) { h_log("item: leave g%d", it->grp); g_leave(it->grp); }
 	else { GP.L[it->grp]--; GP.leaves[it->grp]++; g_changed(it->grp); h_log("item: end of group_async body g%d", it->grp); }
 	GP.pending_async--;
@@ -243,13 +258,14 @@ static void *group_thread(void *arg) {
 		case G_ENTER: h_log("t%d enter g%d", th, grp); g_enter(grp); break;
 		case G_LEAVE: h_log("t%d leave g%d", th, grp); g_leave(grp); break;
 		case G_ENTER_HANDOFF: {
-			gitem *it = malloc(sizeof *it); it->grp = grp; it->handoff = 1; it->body = (int)(op->arg & 1);
+			gitem *it = malloc(sizeof *it); it->grp = grp; it->handoff = 1; it->body = (int)(op->arg & 1); it->nest = 0; it->q = op->q;
 			h_log("t%d enter g%d, leave handed to an item", th, grp);
 			g_enter(grp); GP.pending_async++;
 			dispatch_async_f(GP.q[op->q], it, g_item_fn);
 			break; }
 		case G_ASYNC: {
-			gitem *it = malloc(sizeof *it); it->grp = grp; it->handoff = 0; it->body = (int)(op->arg & 1);
+			gitem *it = malloc(sizeof *it); it->grp = grp; it->handoff = 0; it->body = (int)(op->arg & 1); it->q = op->q;
+			it->nest = ((op->arg >> 3) & 7) == 1 ? 1 : ((op->arg >> 3) & 7) == 2 ? 2 : 0;   // a quarter of the items submit further group work themselves
 			h_log("t%d group_async g%d", th, grp);
 			GP.pending_async++;
 			if (op->arg & 4) dispatch_group_async(GP.g[grp], GP.q[op->q], ^{ g_item_fn(it); }); else dispatch_group_async_f(GP.g[grp], GP.q[op->q], it, g_item_fn);
